@@ -690,7 +690,7 @@ def simple_stmt(rng, fields):
     return EXPR(BIN("!=", fe, LIT(rng.randint(lo, hi))))
 
 
-def hierarchy(rng, depth=3, prefix="H"):
+def hierarchy(rng, depth=3, prefix="H", with_list=False):
     """chain of classes prefix0 <- prefix1 <- ...; derived classes add fields,
     override some block names and add new blocks"""
     classes = []
@@ -698,19 +698,35 @@ def hierarchy(rng, depth=3, prefix="H"):
     block_names = []
     for d in range(depth):
         fields = []
+        if with_list and d == 0:
+            fields.append({"n": "lst", "k": "l", "w": 3, "s": False, "r": True, "rsz": False,
+                           "sz": rng.randint(1, 3)})
         for i in range(rng.randint(1, 2)):
             w = rng.choice([2, 3, 3, 4])
             fields.append({"n": "f%d_%d" % (d, i), "k": "s", "w": w,
                            "s": rng.random() < 0.3, "r": True, "i": 0})
-        all_fields += [dict(f, _p=[f["n"]]) for f in fields]
+        all_fields += [dict(f, _p=[f["n"]]) for f in fields if f["k"] == "s"]
         blocks = []
+        if with_list and (d == 0 or rng.random() < 0.4):
+            # a block whose body is expanded per element (may be overridden further down)
+            n = "%sfe" % rng.choice("abxy") if d == 0 else None
+            if d == 0:
+                block_names.append(n)
+            else:
+                n = [b for b in block_names if b.endswith("fe")][0]
+            hi = rng.randint(1, 6)
+            body = [EXPR(BIN(rng.choice(["<=", "<", "!="]), {"t": "f", "p": ["lst", _loopvar(0, True)]}, LIT(hi)))]
+            blocks.append({"n": n, "stmts": [{"t": "foreach", "p": ["lst"], "it": True, "idx": True, "body": body}]})
         # override some inherited names
         for n in block_names:
+            if n.endswith("fe") or n in [b["n"] for b in blocks]:
+                continue
             if rng.random() < 0.5:
                 blocks.append({"n": n, "stmts": [simple_stmt(rng, all_fields)
                                                  for _ in range(rng.randint(1, 2))]})
         for i in range(rng.randint(1, 2)):
-            n = "c%d_%d" % (d, i)
+            # a derived class's new blocks may sort before or after the inherited ones
+            n = "%s%d_%d" % (rng.choice("abcxyz"), d, i)
             block_names.append(n)
             blocks.append({"n": n, "stmts": [simple_stmt(rng, all_fields)
                                              for _ in range(rng.randint(1, 2))]})
